@@ -1031,9 +1031,118 @@ fn short_interval_part(ctx: &Ctx, res: &mut PartResult) {
     res.sample(json!({"history": "5 bursts over 150 counters and 20 histograms, flush every 1 ms, unixgram", "expected": "all deltas and values add up at the agent"}));
 }
 
+/// Many keys of every kind in ONE flush, under a global prefix and global labels, for several fresh exporters and
+/// several flush rounds each (the order in which a flush visits the keys is the iteration order of a hash map): every
+/// key's counter deltas add up to its increments under its own full name, every gauge / histogram arrives under its
+/// own name, and nothing arrives under any other name. Keys in the exporter's own telemetry namespace are part of the
+/// population (whether those carry the prefix is not judged here, only that the others always do).
+fn many_keys_part(res: &mut PartResult) {
+    res.engine = "E3 flush rounds over a population of keys through State::flush + PayloadWriter".into();
+    let mut states = vcore::vseq::States::new();
+    let names = ["a", "b", "requests", "datadog.dogstatsd.client.user", "datadog", "c.d", "e", "f", "datadog.dogstatsd.client.packets_sent", "g"];
+    for (prefix, global) in [(Some("pre"), true), (Some("app"), false), (None, true)] {
+        for inst in 0..8 {
+            let gl = if global { vec![metrics::Label::new("g", "1")] } else { vec![] };
+            let (mut drv, rec) = Driver::new(inst % 2 == 1, false, 16, true, gl, prefix.map(|p| p.to_string()), 8192, false);
+            let mut sent: BTreeMap<(char, String), Vec<String>> = BTreeMap::new();
+            let mut want: BTreeMap<(char, String), Vec<String>> = BTreeMap::new();
+            let mut totals: BTreeMap<String, u64> = BTreeMap::new();
+            for round in 0..3u64 {
+                for (ni, name) in names.iter().enumerate() {
+                    let key = Key::from_name(name.to_string());
+                    let full = match prefix {
+                        Some(p) => format!("{}.{}", p, name),
+                        None => name.to_string(),
+                    };
+                    if (ni as u64 + round) % 3 != 0 {
+                        let d = 1 + ni as u64 + 10 * round;
+                        rec.register_counter(&key, &META).increment(d);
+                        *totals.entry(full.clone()).or_insert(0) += d;
+                    }
+                    if (ni as u64 + round) % 4 == 0 {
+                        let v = ni as f64 + 0.5 + round as f64;
+                        rec.register_gauge(&key, &META).set(v);
+                        want.entry(('g', full.clone())).or_default().push(format!("{}", v));
+                    }
+                    if (ni as u64 + round) % 5 == 0 {
+                        let v = ni as f64 + 0.25;
+                        rec.register_histogram(&key, &META).record(v);
+                        want.entry(('d', full.clone())).or_default().push(format!("{}", v));
+                    }
+                }
+                res.executions += 1;
+                res.transitions += names.len() as u64;
+                for p in drv.flush_once() {
+                    for line in p.split_inclusive(|b| *b == b'\n') {
+                        match statsd::parse_message(line) {
+                            Ok(m) => sent.entry((m.ty, m.name.clone())).or_default().extend(m.values.clone()),
+                            Err(e) => {
+                                res.violation("payload-not-parseable", format!("{:?}: {}", String::from_utf8_lossy(line), e), json!({"many_keys": inst}));
+                                return;
+                            }
+                        }
+                    }
+                }
+            }
+            states.add(&(prefix.is_some(), global, sent.len()));
+            let exempt = |n: &str| n.contains("datadog.dogstatsd.client");
+            let cfg = json!({"many_keys": inst, "prefix": format!("{:?}", prefix)});
+            // counters: per wire name the deltas add up to the increments; no other name receives anything
+            let mut got_totals: BTreeMap<String, u64> = BTreeMap::new();
+            for ((ty, name), vals) in &sent {
+                if *ty == 'c' {
+                    *got_totals.entry(name.clone()).or_insert(0) += vals.iter().map(|v| v.parse::<u64>().unwrap_or(u64::MAX / 4)).sum::<u64>();
+                }
+            }
+            for (name, t) in &totals {
+                if exempt(name) {
+                    continue;
+                }
+                let got = got_totals.get(name).cloned().unwrap_or(0);
+                if got != *t {
+                    res.violation("counter-sum-wrong", format!("prefix {:?}, exporter {} ({} keys per flush, 3 flushes): counter {:?} received deltas adding up to {}, its increments add up to {}; everything received: {:?}", prefix, inst, names.len(), name, got, t, got_totals), cfg.clone());
+                    break;
+                }
+            }
+            for ((ty, name), vals) in &sent {
+                if exempt(name) {
+                    continue;
+                }
+                let known = match ty {
+                    'c' => totals.contains_key(name),
+                    _ => want.get(&(*ty, name.clone())).map_or(false, |w| {
+                        let mut a = w.clone();
+                        let mut b = vals.clone();
+                        a.sort();
+                        b.sort();
+                        // a gauge is sent once per flush after its last set; a histogram sends every value once
+                        if *ty == 'g' { b.iter().all(|x| a.contains(x)) } else { a == b }
+                    }),
+                };
+                if !known {
+                    res.violation("message-for-a-key-nobody-wrote", format!("prefix {:?}, exporter {}: the flushes sent {:?} values {:?} under the name {:?}, which is not the full name of any key written (or not its values); written: counters {:?}, others {:?}", prefix, inst, ty, vals, name, totals.keys().collect::<Vec<_>>(), want.keys().collect::<Vec<_>>()), cfg.clone());
+                    break;
+                }
+            }
+            for ((ty, name), w) in &want {
+                if exempt(name) || *ty == 'g' {
+                    continue;
+                }
+                if sent.get(&(*ty, name.clone())).map_or(0, |v| v.len()) != w.len() {
+                    res.violation("histogram-values-lost-or-duplicated", format!("prefix {:?}, exporter {}: {:?} got {:?}, recorded {:?}", prefix, inst, name, sent.get(&(*ty, name.clone())), w), cfg.clone());
+                    break;
+                }
+            }
+        }
+    }
+    res.states = states.len();
+    res.distinct_outcomes = states.len();
+    res.sample(json!({"keys_per_flush": 10, "exporters": 24, "flushes_each": 3, "expected": "every non-telemetry key only ever under prefix.name"}));
+}
+
 fn parts(ctx: &Ctx) -> Vec<PartSpec> {
     let e1 = |s: &str, pb: u64| PartSpec::new(&format!("e1-{}-pb{}", s, pb), json!({"e1": s, "pb": pb})).cpus("0");
-    let mut v = vec![PartSpec::new("e4-sockets", json!({"e4": true})).budget(120.0), PartSpec::new("e3-sampling-on", json!({"sampling": true})), PartSpec::new("e4-stalled-agent", json!({"stalled": true})).budget(120.0), PartSpec::new("e4-short-flush-interval", json!({"cadence": true})).budget(120.0)];
+    let mut v = vec![PartSpec::new("e4-sockets", json!({"e4": true})).budget(120.0), PartSpec::new("e3-sampling-on", json!({"sampling": true})), PartSpec::new("e3-many-keys-one-flush", json!({"many_keys": true})), PartSpec::new("e4-stalled-agent", json!({"stalled": true})).budget(120.0), PartSpec::new("e4-short-flush-interval", json!({"cadence": true})).budget(120.0)];
     let d = if ctx.quick() { 5 } else { 7 };
     v.push(PartSpec::new(&format!("e3-seq-d{}-conservative-dist", d), json!({"seq": d, "aggressive": false, "as_dist": true})).budget(if ctx.quick() { 150.0 } else { 2400.0 }));
     v.push(PartSpec::new(&format!("e3-seq-d{}-aggressive-hist", d - 1), json!({"seq": d - 1, "aggressive": true, "as_dist": false})).budget(if ctx.quick() { 150.0 } else { 2400.0 }));
@@ -1057,6 +1166,10 @@ fn run(ctx: &Ctx, spec: &PartSpec) -> PartResult {
     }
     if spec.arg["stalled"].as_bool() == Some(true) {
         stalled_agent_part(ctx, &mut res);
+        return res;
+    }
+    if spec.arg["many_keys"].as_bool() == Some(true) {
+        many_keys_part(&mut res);
         return res;
     }
     if spec.arg["sampling"].as_bool() == Some(true) {
